@@ -1,6 +1,7 @@
 package gensim
 
 import (
+	"crypto/x509"
 	"fmt"
 	mrand "math/rand"
 	"net"
@@ -172,7 +173,18 @@ func (g *Gen) ParamsFor(logname string, ns string, hard bool, algo int) *csr.Req
 	case 2:
 		user, host, trans = core.GenLongText(g.R), core.GenLongText(g.R), core.GenLongText(g.R)
 	}
-	return Params(ns, logname, user, host, ip, trans, hard, algo, false)
+	p := Params(ns, logname, user, host, ip, trans, hard, algo, false)
+	// other client claims that have no bearing on the request: the signature algorithm the client would like, the
+	// declared interface version, extension attributes
+	if p.Attrs != nil && g.R.Intn(2) == 0 {
+		p.Attrs.SignatureAlgo = x509.SignatureAlgorithm(core.Pick(g.R, 3, 4, 5, 6, 10, 11, 13, 14, 16, 99))
+		p.SignatureAlgo = p.Attrs.SignatureAlgo // NewReqParam copies it
+		p.Attrs.IfVer = core.Pick(g.R, 0, 6, 7, 8)
+		if g.R.Intn(3) == 0 {
+			p.Attrs.Exts = map[string]interface{}{"caPubKeyAlgo": 3, "req": "root@bastion", "HardKey": true}
+		}
+	}
+	return p
 }
 
 // Store0 builds pre-existing identities: plain keys, foreign certificates and
